@@ -3,6 +3,7 @@ The three hypotheses of the optimiser theorems of Props/C09.lean (`TargetsInRang
 `PathSpans`: "as compiled") hold for every chunk the compiler model emits.
 -/
 import TeraModel.Lemmas.CompilerOpOf
+import TeraModel.Props.C09
 namespace Tera.Compiler
 
 /-- the operand of the five jump-carrying instructions (`Instr.target?` of the wire form) -/
@@ -166,5 +167,55 @@ theorem pspan_aux :
 
 theorem pspan_nodes (ns : List Node) (base : Nat) (loop : Option Nat) :
     AllC PSpan (nodesCode base loop ns) := pspan_aux.2.1 0 none ns base loop
+
+/-! ### The optimisation pass keeps `Iterate` operands positive -/
+
+open Tera.Optimize in
+/-- If every `Iterate` operand of `c` is positive and every jump operand is in range, every `Iterate`
+operand of the optimised code is positive: an `Iterate` of the output is an `Iterate j ↦ t` of the
+input with its operand replaced by `index_map[t]`, the number of groups laid out before the old
+index `t` (`C09.jumps_land_same`); `t > 0` means at least one old instruction, hence at least one
+group, lies before it. -/
+theorem optimize_keeps_iterate_pos (c r : List Entry) (h : optimize c = .ok r)
+    (hr : C09.TargetsInRange c) (hpos : ∀ e ∈ c, ∀ t, e.1 = .iterate t → 0 < t) :
+    ∀ e' ∈ r, ∀ t', e'.1 = .iterate t' → 0 < t' := by
+  intro e' he' t' ht'
+  rw [C09.optimize_ok c r h] at he'
+  simp only [List.mem_map] at he'
+  obtain ⟨_, ⟨g, hg, rfl⟩, rfl⟩ := he'
+  have hpar := C09.groups_parsed c
+  have hshape := hpar.shapes g hg
+  -- only a kept instruction can be an `Iterate`
+  cases hshape with
+  | path n s taken _ _ => simp [remapTotal, Instr.mapTarget] at ht'
+  | write n s w taken _ => simp [remapTotal, Instr.mapTarget] at ht'
+  | keep e =>
+    simp only [remapTotal] at ht'
+    have hec : e ∈ c := by
+      rw [← hpar.concat]
+      exact List.mem_flatMap.mpr ⟨_, hg, by simp⟩
+    -- `e` is `Iterate t` with `t' = index_map[t]`
+    obtain ⟨t, hte, htt⟩ : ∃ t, e.1 = .iterate t ∧ t' = (indexMap c).getD t 0 := by
+      cases he1 : e.1 <;> simp [he1, Instr.mapTarget] at ht'
+      exact ⟨_, rfl, ht'.symm⟩
+    have ht0 := hpos e hec t hte
+    have htgt : e.1.target? = some t := by simp [hte, Instr.target?]
+    obtain ⟨k, hk, _, htake⟩ := C09.jumps_land_same c e hec t htgt (hr e hec t htgt)
+    have hkk : t' = k := by
+      rw [htt]; simp [List.getD, hk]
+    rw [hkk]
+    rcases Nat.eq_zero_or_pos k with hk0 | hk0
+    · exfalso
+      subst hk0
+      simp only [List.take_zero, List.flatMap_nil] at htake
+      have hne : c.take t ≠ [] := by
+        cases c with
+        | nil => cases hec
+        | cons x xs =>
+          cases t with
+          | zero => omega
+          | succ n => simp
+      exact hne htake.symm
+    · exact hk0
 
 end Tera.Compiler
